@@ -7,6 +7,7 @@ import (
 	"io"
 	"net/http"
 	"os"
+	"path/filepath"
 	"sort"
 	"strings"
 	"sync"
@@ -352,6 +353,7 @@ type concHarness struct {
 func (h concHarness) String() string { return fmt.Sprintf("%s %v", h.Kind, h.Scripts) }
 
 type sharedSystem struct {
+	local string // root directory when the file server runs over LocalFileSystem
 	kind  string
 	fs    *harness.MemFS
 	wd    *webdav.Client
@@ -372,6 +374,29 @@ func newSystem(kind string, nThreads int, s *sched.Sched) *sharedSystem {
 	}
 	mt := time.Unix(1600000000, 0).UTC()
 	switch kind {
+	case "webdav-local":
+		base := "/dev/shm"
+		if st, err := os.Stat(base); err != nil || !st.IsDir() {
+			base = os.TempDir()
+		}
+		dir, err := os.MkdirTemp(base, "c18local")
+		if err != nil {
+			panic(err)
+		}
+		for i := 1; i <= nThreads; i++ {
+			d := fmt.Sprintf("%s/t%d", dir, i)
+			os.MkdirAll(d+"/sub", 0o755)
+			os.WriteFile(d+"/f", []byte(fmt.Sprintf("data%d", i)), 0o644)
+			os.WriteFile(d+"/sub/g", []byte("g"), 0o644)
+			for _, p := range []string{d + "/sub/g", d + "/sub", d + "/f", d} {
+				os.Chtimes(p, mt, mt)
+			}
+		}
+		hfs := &harness.HookFS{Inner: webdav.LocalFileSystem(dir), Hook: hook("fs")}
+		w := &harness.Wire{Handler: &webdav.Handler{FileSystem: hfs}, Hook: hook("wire")}
+		sys.local = dir
+		sys.kind = "webdav"
+		sys.wd, _ = webdav.NewClient(w.Client(), "http://h/")
 	case "webdav":
 		fs := harness.NewMemFS()
 		fs.Add(webdav.FileInfo{Path: "/", IsDir: true}, "")
@@ -437,13 +462,26 @@ func (sys *sharedSystem) runOp(ctx context.Context, s *sched.Sched, tid int, op 
 			if err != nil {
 				return errStr(err)
 			}
+			if sys.local != "" {
+				return fmt.Sprintf("%s %d %v", fi.Path, fi.Size, fi.ETag != "")
+			}
 			return fmt.Sprintf("%s %d %s %s", fi.Path, fi.Size, fi.ETag, fi.MIMEType)
 		case "readdir":
 			l, err := sys.wd.ReadDir(ctx, d, true)
 			var ps []string
 			for _, fi := range l {
+				if sys.local != "" {
+					// entity tags of LocalFileSystem derive from kernel mtimes: not comparable across runs
+					sz := fi.Size
+					if fi.IsDir {
+						sz = 0
+					}
+					ps = append(ps, fmt.Sprintf("%s/%d", fi.Path, sz))
+					continue
+				}
 				ps = append(ps, fmt.Sprintf("%s/%d/%s", fi.Path, fi.Size, fi.ETag))
 			}
+			sort.Strings(ps)
 			return strings.Join(ps, ",") + " " + errStr(err)
 		case "open":
 			rc, err := sys.wd.Open(ctx, d+"/f")
@@ -555,8 +593,32 @@ func cardObjs(l []carddav.AddressObject) string {
 }
 
 // state of the backend restricted to one thread's subtree
+func (sys *sharedSystem) close() {
+	if sys.local != "" {
+		os.RemoveAll(sys.local)
+	}
+}
+
 func (sys *sharedSystem) stateOf(tid int) string {
 	var l []string
+	if sys.local != "" {
+		root := fmt.Sprintf("%s/t%d", sys.local, tid)
+		filepath.Walk(root, func(p string, fi os.FileInfo, err error) error {
+			if err != nil {
+				return nil
+			}
+			rel := strings.TrimPrefix(p, sys.local)
+			if fi.IsDir() {
+				l = append(l, rel+"/")
+			} else {
+				b, _ := os.ReadFile(p)
+				l = append(l, fmt.Sprintf("%s=%q", rel, b))
+			}
+			return nil
+		})
+		sort.Strings(l)
+		return strings.Join(l, ";")
+	}
 	switch sys.kind {
 	case "webdav":
 		pre := fmt.Sprintf("/t%d", tid)
@@ -600,6 +662,7 @@ func soloReference(h concHarness) *concObs {
 			o.Logs[i] = append(o.Logs[i], sys.runOp(ctx, nil, i+1, op))
 		}
 		o.States[i] = sys.stateOf(i + 1)
+		sys.close()
 	}
 	return o
 }
@@ -615,6 +678,7 @@ func runConc(t *testing.T, h concHarness, prefix []int) (s *sched.Sched, obs *co
 		synctest.Test(t, func(t *testing.T) {
 			s = sched.New(prefix)
 			sys := newSystem(h.Kind, len(h.Scripts), s)
+			defer sys.close()
 			for i, sc := range h.Scripts {
 				i, sc := i, sc
 				ctx := withTID(context.Background(), i+1)
@@ -674,6 +738,15 @@ func concHarnesses(full bool) []concHarness {
 			out = append(out, concHarness{Kind: "webdav", Scripts: []opScript{{a}, {b}}})
 		}
 	}
+	// the same operations over the real LocalFileSystem on tmpfs (method-level scheduling points)
+	for _, a := range webdavOps {
+		for _, b := range webdavOps {
+			out = append(out, concHarness{Kind: "webdav-local", Scripts: []opScript{{a}, {b}}})
+		}
+	}
+	out = append(out, concHarness{Kind: "webdav-local", Scripts: []opScript{{"create", "open"}, {"create", "stat"}}},
+		concHarness{Kind: "webdav-local", Scripts: []opScript{{"mkdir", "copy"}, {"removeall", "readdir"}}},
+		concHarness{Kind: "webdav-local", Scripts: []opScript{{"copy"}, {"move"}, {"readdir"}}})
 	davOps := []string{"find", "multiget", "query", "get", "put"}
 	for _, kind := range []string{"caldav", "carddav"} {
 		for _, a := range davOps {
